@@ -45,7 +45,7 @@ def wname(w: Worker) -> str:
     return ("fallback" if w.fallback else "pydantic") + "+" + ("orjson" if w.orjson_on else "stdlib")
 
 
-PATHS = ["dumps", "dumps_compact", "dumps_indent_none", "dumps_after_pretty", "model_request", "model_response"]
+PATHS = ["dumps", "dumps_compact", "dumps_indent_none", "dumps_after_pretty", "model_request", "model_response", "model_request_top", "model_response_top"]
 
 
 def depth_of(v: Any) -> int:
@@ -223,6 +223,8 @@ def check(case: Dict[str, Any]) -> Outcome:
         for wi, w in enumerate(ws):
             for p in PATHS:
                 t = enc[wi][vi][p]
+                if isinstance(t, (list, tuple)) and len(t) == 1 and t[0] == "$skip":
+                    continue  # (path not applicable to this value)
                 if not isinstance(t, str) and deep[vi] and p.startswith("model_") and not w.fallback:
                     continue  # Pydantic's own serialiser refuses nesting beyond 255 levels; that is not the JSON backend's doing
                 if not isinstance(t, str):
@@ -234,6 +236,15 @@ def check(case: Dict[str, Any]) -> Outcome:
                     fl, ferr = framed[t]
                     if ferr or len(fl) != 1:
                         out.fail("encoded-message-is-not-exactly-one-frame-for-the-stdio-reader", f"{wname(w)} {p}: reader produced {len(fl)} frame(s) ({ferr}) from {t[:200]!r}")
+                    else:
+                        import json as _json3
+
+                        try:
+                            ref_ = _json3.loads(t)
+                        except Exception:
+                            ref_ = None
+                        if ref_ is not None and not strict_eq(fl[0], ref_):
+                            out.fail("stdio-reader-frame-differs-from-the-encoded-text", f"{wname(w)} {p}: {str(first_diff(fl[0], ref_))[:200]} text={t[:160]!r}")
                 for di, d in enumerate(ws):
                     status, got = dec[di][texts[t]]
                     if status != "ok":
@@ -243,6 +254,10 @@ def check(case: Dict[str, Any]) -> Outcome:
                         got = got.get("params", {}).get("v", "$missing") if isinstance(got, dict) else "$notdict"
                     elif p == "model_response":
                         got = got.get("result", {}).get("v", "$missing") if isinstance(got, dict) else "$notdict"
+                    elif p == "model_request_top":
+                        got = got.get("params", {}) if isinstance(got, dict) else "$notdict"  # ({} is omitted by exclude_none? no: kept or omitted, both mean {})
+                    elif p == "model_response_top":
+                        got = got.get("result", "$missing") if isinstance(got, dict) else "$notdict"
                     if not strict_eq(got, v):
                         enc_b = "orjson" if w.orjson_on else "stdlib"
                         dec_b = "orjson" if d.orjson_on else "stdlib"
@@ -404,6 +419,31 @@ def job_deep(col: Collector, seed: int, tier: str) -> None:
     col.exhaustive_parts.append(f"decoding documents nested {depths} levels x 3 container kinds x 4 leaves, str and bytes, both backends")
 
 
+EDGE_TEXTS = [" k", "k ", "\tk", "k\n", "\u00a0k", "k\u2028", "\u3000k\u3000", "\ufeffk", "k\ufeff", "a\ufeffb", " ", "", "\u0085k", "k\u200b", "\u2060k", "k\u00ad", "\u202ek", "  k  "]
+
+
+def job_edges(col: Collector, seed: int, tier: str) -> None:
+    """member names and strings that begin or end with white space or with zero-width / BOM-like characters, as
+    first-level and nested members: nothing may trim, normalise or strip them on the way out or in"""
+    values: List[Any] = []
+    for t in EDGE_TEXTS:
+        values += [{t: 1}, {t: t}, {"k": {t: [t]}}, t, [t, {t: None}]]
+    values.append({t: i for i, t in enumerate(EDGE_TEXTS)})
+    for i in range(0, len(values), 12):
+        case = {"values": values[i : i + 12]}
+        o = check(case)
+        if o.failures:
+            for v in case["values"]:
+                o1 = check({"values": [v]})
+                if o1.failures:
+                    col.record({"values": [v]}, o1)
+        else:
+            o.nontrivial = True
+            col.record(case, o)
+        col.evaluations += len(case["values"]) - 1
+    col.exhaustive_parts.append(f"{len(EDGE_TEXTS)} strings with white space / zero-width / BOM-like characters at their edges or inside, as first-level and nested member names and as values, through every encoder path, both decoders and the stdio reader")
+
+
 def job_siblings(col: Collector, seed: int, tier: str) -> None:
     """runs of values that are containers of the same type and length but different content, encoded one after the
     other in the same backend process (each one garbage before the next is built): an encoder that remembers anything
@@ -432,14 +472,14 @@ def job_siblings(col: Collector, seed: int, tier: str) -> None:
     col.exhaustive_parts.append("sibling containers: lengths {1,7,8,9,16,40} x {int lists, int dicts, lists of rows, nested} x 4-6 siblings, each run twice in the same worker processes")
 
 
-JOBS = {"grammar": job_grammar, "hyp": job_hyp, "deep": job_deep, "siblings": job_siblings}
+JOBS = {"edges": job_edges, "grammar": job_grammar, "hyp": job_hyp, "deep": job_deep, "siblings": job_siblings}
 SERIAL = False
 
 
 def jobs(tier: str):
     if tier == "quick":
-        return [("grammar", {"shard": s, "nshards": 3, "stride": 8}) for s in range(3)] + [("hyp", {"shard": 0, "n": 150}), ("deep", {}), ("siblings", {})]
-    return [("grammar", {"shard": s, "nshards": 3, "stride": 1}) for s in range(3)] + [("hyp", {"shard": 0, "n": 6000}), ("deep", {}), ("siblings", {})]
+        return [("grammar", {"shard": s, "nshards": 3, "stride": 8}) for s in range(3)] + [("hyp", {"shard": 0, "n": 150}), ("deep", {}), ("siblings", {}), ("edges", {})]
+    return [("grammar", {"shard": s, "nshards": 3, "stride": 1}) for s in range(3)] + [("hyp", {"shard": 0, "n": 6000}), ("deep", {}), ("siblings", {}), ("edges", {})]
 
 
 def shrink(signature: str, seed: int):
